@@ -8,6 +8,7 @@
   obligations establish on the evaluated family, and the oracle checks on the implementation).
 -/
 import Proofs.ConvertSelf
+import Proofs.GraphHist
 
 namespace Measured.C05
 open Measured
@@ -64,5 +65,99 @@ example : offsetFree demoPlan ∧ positivePlan demoPlan := by
     rcases hst with rfl | rfl
     · refine ⟨by norm_num, ?_⟩; intro h hh; simp at hh; rcases hh with rfl | rfl <;> norm_num
     · refine ⟨by norm_num, ?_⟩; intro h hh; simp at hh
+
+/-! ### the direct fragment, proved for the planner itself
+
+  No hypothesis about plan coefficients here: these are statements about the model of the real
+  `convert` / `_plan_conversion` / `_find_path_recursive` / `_reduce_dimension`, for every state
+  reachable (`Reach σ`) by unit operations, σ-consistent declarations and directly settled
+  conversions, in any order.  "Directly settled" = the path search itself connects the two units
+  (named units of one dimension, powers of them, chains of declarations of any length). -/
+
+variable {σ : UId → Rat}
+
+/-- A direct conversion is exact: `result · size(target) = magnitude · size(source)`. -/
+theorem direct_conversion_exact (hσ : ∀ k, σ k ≠ 0) {c c' : Conv Rat} (hr : Reach σ c) {q r : Qty Rat} {t : UId}
+    (hq : q.unit < c.st.units.length) (ht : t < c.st.units.length)
+    (h : CM.exec (convert q t) c = (.ok r, c')) :
+    r.unit = t ∧
+    ∃ (direct : List (Hop Rat)) (c2 : Conv Rat),
+      CM.exec (findPath q.unit t)
+        { c with st := ((c.st.unprefixedUnit q.unit).1.unprefixedUnit t).1 } = (.ok direct, c2) ∧
+      (direct ≠ [] → r.mag.val * unitSz σ c.st t = q.mag.val * unitSz σ c.st q.unit) :=
+  reach_convert_exact hσ hr hq ht h
+
+/-- There and back is the identity (both legs settled directly), whatever was interned in between. -/
+theorem direct_round_trip (hσ : ∀ k, σ k ≠ 0) {c c' c'' ca cb : Conv Rat} (hr : Reach σ c) {q r r2 : Qty Rat} {t : UId}
+    {p p2 : List (Hop Rat)}
+    (hq : q.unit < c.st.units.length) (ht : t < c.st.units.length)
+    (h1 : CM.exec (convert q t) c = (.ok r, c'))
+    (hp1 : CM.exec (findPath q.unit t) { c with st := ((c.st.unprefixedUnit q.unit).1.unprefixedUnit t).1 } = (.ok p, ca))
+    (hne1 : p ≠ [])
+    (h2 : CM.exec (convert r q.unit) c' = (.ok r2, c''))
+    (hp2 : CM.exec (findPath r.unit q.unit) { c' with st := ((c'.st.unprefixedUnit r.unit).1.unprefixedUnit q.unit).1 } = (.ok p2, cb))
+    (hne2 : p2 ≠ []) :
+    r2.mag.val = q.mag.val ∧ r2.unit = q.unit := by
+  obtain ⟨hg, ho⟩ := reach_graphOK hσ hr
+  obtain ⟨hu, d, c2, hfp, hd⟩ := convert_direct_exact hσ hg hq ht ho h1
+  rw [hp1] at hfp
+  simp only [Prod.mk.injEq, Except.ok.injEq] at hfp
+  obtain ⟨rfl, rfl⟩ := hfp
+  obtain ⟨e1, g', f'⟩ := hd hne1
+  have hr' : Reach σ c' := Reach.direct hr hq ht h1 hp1 hne1
+  have hq' := f'.lt hq
+  have ht' : r.unit < c'.st.units.length := by rw [hu]; exact f'.lt ht
+  obtain ⟨hu2, d2, c3, hfp2, hd2⟩ := convert_direct_exact hσ g' ht' hq' (by rw [f'.offsets]; exact ho) h2
+  rw [hp2] at hfp2
+  simp only [Prod.mk.injEq, Except.ok.injEq] at hfp2
+  obtain ⟨rfl, rfl⟩ := hfp2
+  obtain ⟨e2, _, _⟩ := hd2 hne2
+  refine ⟨?_, hu2⟩
+  rw [hu, f'.sz hq, f'.sz ht] at e2
+  have hs := unitSz_ne_zero hσ hg.canon hq
+  have : r2.mag.val * unitSz σ c.st q.unit = q.mag.val * unitSz σ c.st q.unit := by rw [e2, e1]
+  exact mul_right_cancel₀ hs this
+
+/-- Converting via an intermediate unit agrees with converting directly (all three legs settled
+    directly), whatever was interned in between. -/
+theorem direct_route_independent (hσ : ∀ k, σ k ≠ 0) {c c₁ c₂ c₃ ca cb cc : Conv Rat} (hr : Reach σ c)
+    {q r₁ r₂ r₃ : Qty Rat} {b t : UId} {p₁ p₂ p₃ : List (Hop Rat)}
+    (hq : q.unit < c.st.units.length) (hb : b < c.st.units.length) (ht : t < c.st.units.length)
+    (h1 : CM.exec (convert q b) c = (.ok r₁, c₁))
+    (hp1 : CM.exec (findPath q.unit b) { c with st := ((c.st.unprefixedUnit q.unit).1.unprefixedUnit b).1 } = (.ok p₁, ca))
+    (hne1 : p₁ ≠ [])
+    (h2 : CM.exec (convert r₁ t) c₁ = (.ok r₂, c₂))
+    (hp2 : CM.exec (findPath r₁.unit t) { c₁ with st := ((c₁.st.unprefixedUnit r₁.unit).1.unprefixedUnit t).1 } = (.ok p₂, cb))
+    (hne2 : p₂ ≠ [])
+    (h3 : CM.exec (convert q t) c₂ = (.ok r₃, c₃))
+    (hp3 : CM.exec (findPath q.unit t) { c₂ with st := ((c₂.st.unprefixedUnit q.unit).1.unprefixedUnit t).1 } = (.ok p₃, cc))
+    (hne3 : p₃ ≠ []) :
+    r₃.mag.val = r₂.mag.val ∧ r₃.unit = r₂.unit := by
+  obtain ⟨hg, ho⟩ := reach_graphOK hσ hr
+  obtain ⟨hu1, d, x, hfp, hd⟩ := convert_direct_exact hσ hg hq hb ho h1
+  rw [hp1] at hfp
+  simp only [Prod.mk.injEq, Except.ok.injEq] at hfp
+  obtain ⟨rfl, rfl⟩ := hfp
+  obtain ⟨e1, g1, f1⟩ := hd hne1
+  have ho1 : c₁.offsets = [] := by rw [f1.offsets]; exact ho
+  have hb1 : r₁.unit < c₁.st.units.length := by rw [hu1]; exact f1.lt hb
+  obtain ⟨hu2, d, x, hfp, hd⟩ := convert_direct_exact hσ g1 hb1 (f1.lt ht) ho1 h2
+  rw [hp2] at hfp
+  simp only [Prod.mk.injEq, Except.ok.injEq] at hfp
+  obtain ⟨rfl, rfl⟩ := hfp
+  obtain ⟨e2, g2, f2⟩ := hd hne2
+  have f12 := f1.trans f2
+  have ho2 : c₂.offsets = [] := by rw [f2.offsets]; exact ho1
+  obtain ⟨hu3, d, x, hfp, hd⟩ := convert_direct_exact hσ g2 (f12.lt hq) (f12.lt ht) ho2 h3
+  rw [hp3] at hfp
+  simp only [Prod.mk.injEq, Except.ok.injEq] at hfp
+  obtain ⟨rfl, rfl⟩ := hfp
+  obtain ⟨e3, _, _⟩ := hd hne3
+  refine ⟨?_, by rw [hu3, hu2]⟩
+  rw [f12.sz hq, f12.sz ht] at e3
+  rw [hu1, f1.sz hb, f1.sz ht] at e2
+  have hs := unitSz_ne_zero hσ hg.canon ht
+  have : r₃.mag.val * unitSz σ c.st t = r₂.mag.val * unitSz σ c.st t := by rw [e3, e2, e1]
+  exact mul_right_cancel₀ hs this
 
 end Measured.C05
